@@ -429,6 +429,7 @@ class Trial:
         self.view = self.db
         self.deferred = False
         self.last_twin_failed = False
+        self.other_process_seed = None
 
     # -- helpers ----------------------------------------------------------
     def logline(self, *parts):
@@ -935,6 +936,8 @@ class Trial:
                 if s not in self.acked and s in ("rise", "recession"):
                     self.do_op(s, op_argv(s, self.knobs, self.load_argv), None)
         self.check_liveness()
+        if self.other_process_seed is not None:
+            self.check_other_process(self.other_process_seed)
         self.stats["histories"] += 1
         if len(self.acked) == len(STEPS):
             self.stats["histories_all_steps_completed"] += 1
@@ -960,6 +963,40 @@ class Trial:
             raise Violation("I6-step-completes-in-a-clean-history-but-not-after-failed-attempts",
                             {"op_index": len(self.ops) - 1, "steps": missing, "completed_here": sorted(self.acked)})
 
+    def check_other_process(self, hash_seed):
+        """I5 across processes: the same completed steps, run fault free in
+        canonical order by a FRESH interpreter with another PYTHONHASHSEED,
+        must leave the same content.  (The simulation pins the hash seed for
+        replayability; real runs do not, and every spowtd command is its own
+        process.)"""
+        if any(c > 1 for c in self.ack_count.values()) or not self.acked:
+            return
+        request = os.path.join(self.dir, "canon-request.json")
+        work = os.path.join(self.dir, "canonproc.sqlite")
+        _copy_with_sidecars(self.base, work)
+        with open(request, "w", encoding="utf-8") as f:
+            json.dump({"db": work, "knobs": dict(self.knobs, cache_pages=None),
+                       "ops": [[s, list(self.acked[s])] for s in CANON_ORDER if s in self.acked]}, f)
+        envv = dict(os.environ)
+        envv["PYTHONHASHSEED"] = str(hash_seed)
+        envv["VCHECK_REEXEC"] = "1"
+        import subprocess  # pylint: disable=import-outside-toplevel
+        proc = subprocess.run([sys.executable, os.path.join(env.VERIF_ROOT, "bin", "vcheck"), "_canon",
+                               "--replay", request], env=envv, capture_output=True, text=True, timeout=600, check=False)
+        line = [l for l in proc.stdout.splitlines() if l.startswith("CANON ")]
+        if proc.returncode != 0 or not line:
+            raise runner.HarnessError("fresh-interpreter canonical run failed: %s %s" % (proc.stdout[-500:], proc.stderr[-500:]))
+        result = json.loads(line[0][6:])
+        self.stats["I5_checked_in_fresh_interpreter"] += 1
+        if result["failed"] is not None:
+            raise Violation("I5-steps-fail-in-another-process", {"op_index": len(self.ops) - 1, "failed": result["failed"],
+                                                                 "hash_seed": hash_seed})
+        if result["digest"] != self.current.digest:
+            other = result["tables"]
+            differing = sorted(t for t in set(other) | set(self.current.tables) if other.get(t) != self.current.tables.get(t))
+            raise Violation("I5-content-depends-on-the-process-it-was-computed-in",
+                            {"op_index": len(self.ops) - 1, "hash_seed": hash_seed, "tables": differing[:8]})
+
     # -- replay ---------------------------------------------------------------
     def run_ops(self, ops, liveness=False):
         self.logline("replay", len(ops))
@@ -972,6 +1009,8 @@ class Trial:
                                       defer=bool(rec.get("defer_recovery")))
         if liveness:
             self.check_liveness()
+        if self.other_process_seed is not None:
+            self.check_other_process(self.other_process_seed)
 
     def replay_record(self, violation):
         ops = [dict(rec) for rec in self.ops]
@@ -980,13 +1019,31 @@ class Trial:
             "fault_rate": self.fault_rate, "layers": self.layers, "ops": ops,
             "violation": {"class": violation.cls, "op_index": violation.detail.get("op_index")},
             "liveness": violation.cls.startswith("I6"),
+            "other_process_seed": self.other_process_seed if "process" in violation.cls else None,
             "log_digest": runner.digest(self.log),
         }
 
 
-def run_trial(seed, directory, **kw):
+def canon_in_this_process(request_path):
+    """Entry point of the fresh interpreter started by check_other_process."""
+    with open(request_path, encoding="utf-8") as f:
+        req = json.load(f)
+    cli._main()  # pylint: disable=protected-access
+    failed = None
+    for step, argv in req["ops"]:
+        ex = execute(req["db"], argv, req["knobs"], None, os.path.dirname(req["db"]))
+        if not ex.outcome.ok:
+            failed = [step, ex.outcome.as_dict()]
+            break
+    d = dump_mod.dump(req["db"])
+    print("CANON " + json.dumps({"digest": d.digest, "tables": d.tables, "failed": failed}))
+    return 0
+
+
+def run_trial(seed, directory, other_process_seed=None, **kw):
     """Returns (trial, violation or None)."""
     trial = Trial(seed, directory, **kw)
+    trial.other_process_seed = other_process_seed
     try:
         trial.run_history()
     except Violation as v:
@@ -997,6 +1054,7 @@ def run_trial(seed, directory, **kw):
 def replay_ops(rep, directory):
     trial = Trial(rep.get("seed", 0), directory, spec=rep["dataset"], knobs=dict(rep["knobs"]),
                   fault_rate=rep.get("fault_rate", 0.0), layers=list(rep.get("layers", ["A"])))
+    trial.other_process_seed = rep.get("other_process_seed")
     try:
         trial.run_ops(rep["ops"], liveness=bool(rep.get("liveness")))
     except Violation as v:
@@ -1159,6 +1217,8 @@ def history_job(job):
                 kw["fault_rate"] = 0.0
             if job.get("field"):
                 kw["spec"] = {"kind": "field", "sample": job["field"]}
+            if i == 0 and not job.get("field"):
+                kw["other_process_seed"] = 1 + seed % 4000000000
             trial, v = run_trial(seed, directory, **kw)
             stats.update(trial.stats)
             distinct |= trial.distinct
